@@ -393,7 +393,7 @@ structure St where
   out : List OutItem := []              -- newest first
   fnStarts : List (Option Nat) := []    -- running functions, innermost first: where their output starts
   inText : Bool := false                -- evaluating the text of a choice
-  safeExitNl : Option Nat := none       -- line breaks printed when the flow last stopped at a DONE and went on by a fallback choice
+  safeExit : Option (Nat × Nat) := none -- line breaks / content items printed when the flow last stopped at a DONE and went on by a fallback choice
   pending : List Pending := []          -- oldest first
   k : Kont := []
   temps : List (String × Val) := []
@@ -842,20 +842,49 @@ def followFallback (st : St) : Option St :=
 
 def nlCount (rs : List OutItem) : Nat := (rs.filter (· == .nl)).length
 
+/-- What makes the engine see that a line has gone on: proper text or a tag. -/
+def isContent : OutItem → Bool
+  | .text s => !isBlank s
+  | .tag _ => true
+  | _ => false
+
+def contentCount (rs : List OutItem) : Nat := (rs.filter isContent).length
+
+/-- (stream newest-first) is there text or a tag after the last line break? -/
+def contentAfterLastNl (rs : List OutItem) : Bool := (rs.takeWhile (· != .nl)).any isContent
+
+/-- The number of the `continue` call in which the flow stops with this output: a call ends with a
+    line break, and what runs after the last line break without printing belongs to that call. -/
+def lastCall (rs : List OutItem) : Nat :=
+  nlCount rs + (if contentAfterLastNl rs || nlCount rs == 0 then 1 else 0)
+
+/-- (stream oldest-first) line breaks before the first content item after the first `c0` ones. -/
+def nlsBeforeNewContent : List OutItem → Nat → Nat → Nat
+  | [], _, n => n
+  | x :: r, c0, n =>
+    if isContent x then (match c0 with | 0 => n | c + 1 => nlsBeforeNewContent r c n)
+    else if x == .nl then nlsBeforeNewContent r c0 (n + 1)
+    else nlsBeforeNewContent r c0 n
+
 /-- The engine notes that the flow stopped at a DONE ("safe exit") and forgets it only when the
-    `continue` call in which that happened is over, i.e. with the line being produced.  If the flow
-    goes on from there by a fallback choice and then runs out of content while that note still
-    stands, the end of content is not reported (the reference engine behaves the same). -/
+    `continue` call in which that happened is over.  If the flow goes on from there by a fallback
+    choice and then runs out of content while that note still stands, the end of content is not
+    reported (the reference engine behaves the same).  Noted: the line breaks and the content
+    items printed when the flow stopped. -/
 def markSafeExit (why : Stop) (before after : St) : St :=
   match why with
-  | .done => { after with safeExitNl := some (nlCount before.out) }
+  | .done => { after with safeExit := some (nlCount before.out, contentCount before.out) }
   | _ => after
 
-/-- Does the note of a DONE still stand when the flow stops with this output? -/
+/-- Does the note of a DONE still stand when the flow stops with this output?  If nothing was printed
+    since, it does.  Otherwise the DONE was (re-)run in the call that produced the first new content,
+    and the note stands iff that is the last call. -/
 def St.safeExitStands (st : St) : Bool :=
-  match st.safeExitNl with
-  | some m => nlCount st.out ≤ m + 1
+  match st.safeExit with
   | none => false
+  | some (a, c0) =>
+    if contentCount st.out ≤ c0 then true
+    else 1 + min a (nlsBeforeNewContent st.out.reverse c0 0) == lastCall st.out
 
 /-- Run until the flow stops. -/
 def runTurn (prog : Program) (fuel : Nat) (st : St) : TurnEnd × St :=
@@ -895,7 +924,7 @@ def play (prog : Program) (choices : List Nat) (fuel : Nat) : Transcript :=
     let visible := st1.pending.filter (!·.invisible)
     let offered := visible.map (fun p => ({ text := p.text, tags := p.tags } : Line))
     let masked := st1.safeExitStands
-    let st2 := { st1 with out := [], fnStarts := [], safeExitNl := none }
+    let st2 := { st1 with out := [], fnStarts := [], safeExit := none }
     let report (status : Status) (errors : List String) (turn : Turn) : Transcript :=
       { turns := (turn :: turns).reverse, status := status, errors := errors, globals := st2.globals,
         visits := (allVisitKeys prog).map (fun k => (k, st2.visitCount k)) }
